@@ -274,6 +274,13 @@ theorem swapPairs_length (l : Bytes) : (swapPairs l).length = l.length := by
   | case1 a b rest ih => simp [swapPairs, ih]
   | case2 l h => unfold swapPairs; split <;> simp_all
 
+theorem swapPairs_swapPairs (l : Bytes) : swapPairs (swapPairs l) = l := by
+  induction l using swapPairs.induct with
+  | case1 a b rest ih => simp [swapPairs, ih]
+  | case2 l h =>
+    have e : swapPairs l = l := by unfold swapPairs; split <;> simp_all
+    rw [e, e]
+
 theorem swapLoop_spec (n : Nat) (pre s post : Bytes) (hs : s.length = 2 * n) (idx : Int) (i : Nat)
     (h : idx + (i : Int) = (pre.length : Int)) :
     swapLoop (pre ++ (s ++ post)) idx n i = .ok (swapPairs s) := by
@@ -612,5 +619,110 @@ theorem wav_roundtrip (p : WavParams) (d : Bytes)
     (by omega) (by omega)]
   rw [hwidth, Nat.div_mul_cancel (Nat.dvd_of_mod_eq_zero hfr)]
   simp [slice]
+
+/-! ### the decoded sound as a WAV file -/
+
+theorem expected_samples_length (s : Snd) : (expected s).samples.length = s.samples.length := by
+  unfold expected
+  split <;> simp [swapPairs_length]
+
+/-- the sample area holds whole frames: frames × channels × width bytes -/
+theorem samples_whole_frames (s : Snd) (hv : Valid s) :
+    s.samples.length = s.frames * s.header.channels * (s.header.bits / 8) := by
+  have hh := hv.2.2.2.2.2.2.2
+  unfold Snd.frames
+  cases hhd : s.header with
+  | standard => simp [Header.channels, Header.bits]
+  | extended c f b aiff ptrs future =>
+    rw [hhd] at hh
+    simpa [Header.channels, Header.bits] using hh.2.2.2.2.2.2
+
+theorem header_bits (s : Snd) (hv : Valid s) : s.header.bits = 8 ∨ s.header.bits = 16 := by
+  have hh := hv.2.2.2.2.2.2.2
+  cases hhd : s.header with
+  | standard => simp [Header.bits]
+  | extended c f b aiff ptrs future =>
+    rw [hhd] at hh
+    simpa [Header.bits] using hh.2.2.1
+
+theorem sampledToWav_expected (s : Snd) (hv : Valid s) (hc : 1 ≤ s.header.channels) (hr : 1 ≤ s.rateInt) :
+    sampledToWav (expected s) = wavWrite ⟨s.header.channels, s.header.bits / 8, s.rateInt⟩ (expected s).samples := by
+  have hb := header_bits s hv
+  have e1 : ¬ (((s.header.channels : Nat) : Int) < 1) := by omega
+  have e3 : ¬ (((s.rateInt : Nat) : Int) ≤ 0) := by omega
+  have hw : Int.tdiv ((s.header.bits : Nat) : Int) 8 = ((s.header.bits / 8 : Nat) : Int) := by
+    rcases hb with h | h <;> rw [h] <;> decide
+  have e2 : ¬ (((s.header.bits / 8 : Nat) : Int) < 1 ∨ ((s.header.bits / 8 : Nat) : Int) > 4) := by
+    rcases hb with h | h <;> rw [h] <;> decide
+  simp only [sampledToWav, expected, e1, if_false, hw, e2, e3, Int.toNat_natCast]
+
+/-! ### bounded allocation (the repaired 16-bit path) -/
+
+theorem pySlice_length_lt (d : Bytes) (idx : Int) (k : Nat) (h : idx < -(d.length : Int)) (hk : 0 < k) :
+    (pySlice d idx (idx + k)).length < k := by
+  unfold pySlice
+  simp only [List.length_take, List.length_drop]
+  have hneg : idx < 0 := by omega
+  simp only [hneg, if_true]
+  have ha : max (idx + (d.length : Int)) 0 = 0 := by omega
+  rw [ha]
+  by_cases hb : idx + (k : Int) < 0
+  · simp only [hb, if_true]; omega
+  · simp only [hb, if_false]; omega
+
+/-- a header that could be read lies inside the data, also when addressed from the end -/
+theorem soundHeader_idx_ge (st : St) (idx : Int) (d : Bytes) (r : St × Int × Int) (h : soundHeader st idx d = .ok r) :
+    -(d.length : Int) ≤ idx ∧ idx ≤ r.2.1 := by
+  have hlow : -(d.length : Int) ≤ idx := by
+    refine Decidable.byContradiction fun hc => ?_
+    have hl : (pySlice d idx (idx + 4)).length < 4 := pySlice_length_lt d idx 4 (by omega) (by decide)
+    have : getSI 4 d idx = .error .struct := by
+      unfold getSI unpackS
+      have : ¬ ((pySlice d idx (idx + 4)).length = 4) := by omega
+      exact if_neg this
+    simp [soundHeader, this, bind, Except.bind] at h
+  refine ⟨hlow, ?_⟩
+  unfold soundHeader at h
+  simp only [bind, Except.bind] at h
+  repeat' (split at h)
+  all_goals first | contradiction | (simp only [Except.ok.injEq] at h; subst h; simp only; omega)
+
+theorem sampleAreaAlloc_le (st : St) (d : Bytes) (i length : Int) (hi : -(d.length : Int) ≤ i) :
+    sampleAreaAlloc st d i length ≤ 2 * d.length := by
+  unfold sampleAreaAlloc
+  split
+  · omega
+  · split
+    · split
+      · omega
+      · split
+        · omega
+        · omega
+    · omega
+
+/-- one `_get_frames` call never allocates more than twice the resource for its output buffer -/
+theorem getFramesAlloc_le (st : St) (idx : Int) (d : Bytes) : getFramesAlloc st idx d ≤ 2 * d.length := by
+  unfold getFramesAlloc
+  split
+  · rename_i s i length h
+    have := soundHeader_idx_ge st idx d _ h
+    exact sampleAreaAlloc_le s d i length (by simp only at this; omega)
+  · omega
+
+theorem runCmdsAlloc_le (d : Bytes) (st : St) (cs : List Cmd) : runCmdsAlloc d st cs ≤ 2 * d.length * cs.length := by
+  induction cs generalizing st with
+  | nil => simp [runCmdsAlloc]
+  | cons c cs ih =>
+    unfold runCmdsAlloc
+    have hstep : 2 * d.length * (c :: cs).length = 2 * d.length + 2 * d.length * cs.length := by
+      simp only [List.length_cons, Nat.mul_add, Nat.mul_one]; omega
+    split
+    · omega
+    · have := ih st; omega
+    · have h1 := getFramesAlloc_le st c.param2 d
+      split
+      · rename_i s' _ _
+        have := ih s'; omega
+      · omega
 
 end Drx.Snd
